@@ -3,6 +3,7 @@ package props
 import (
 	"context"
 	"fmt"
+	"strings"
 	"time"
 
 	"github.com/aws/aws-sdk-go-v2/aws"
@@ -31,10 +32,72 @@ func init() {
 	})
 }
 
+// runC10Factory: the secure-memory factories themselves. "The underlying array will be wiped after the
+// function exits" (SecretFactory.New): the heap buffer handed to New is zero when New returns, whichever
+// memory-management step failed inside it.
+func runC10Factory(t *simrt.Tape, o Opts) Outcome {
+	which := t.Choose(2, "impl")
+	k := t.Choose(6, "call")
+	size := secretSizes[t.Choose(len(secretSizes), "size")]
+	cfg := schedCfg(t, o, false)
+	var st Stats
+	st.Oracle = map[string]int{}
+	st.Faults = map[string]int{}
+	var viols []world.Violation
+	implName, fired := "", ""
+	s := simrt.Run(t, cfg, func(s *simrt.Sim) {
+		im := mkImpl(s, which)
+		implName = im.name
+		rnd := simrt.NewRand(uint64(t.Choose(1<<20, "seed")) + 29)
+		src := make([]byte, size)
+		rnd.Fill(src)
+		for i := range src {
+			src[i] |= 1 // no zero byte: "wiped" is unambiguous
+		}
+		im.spy.FailAt = len(im.spy.Calls) + k
+		sec, err := im.factory.New(src)
+		im.spy.Off = true
+		fired = strings.Join(im.spy.Fired, ",")
+		if fired != "" {
+			st.Faults["memcall:"+strings.SplitN(fired, "#", 2)[0]]++
+		}
+		count(st.Oracle, "factory-argument-zero")
+		for _, b := range src {
+			if b != 0 {
+				outcome := "succeeded"
+				if err != nil {
+					outcome = "failed: " + err.Error()
+				}
+				viols = append(viols, world.Violation{Prop: "C10", Rule: "factory-argument-left", Signature: "C10/factory-argument-not-wiped/" + im.name + "/" + strings.SplitN(fired+"#", "#", 2)[0],
+					Msg: fmt.Sprintf("%s SecretFactory.New(%d bytes) %s (injected: [%s]) and the heap buffer it was handed still holds the key", im.name, size, outcome, fired)})
+				break
+			}
+		}
+		if err == nil && sec != nil {
+			sec.Close()
+		}
+	})
+	out := Outcome{Viols: viols}
+	st.Nontrivial = fired != ""
+	st.Class = fmt.Sprintf("factory|%s|%d|%s", implName, size, fired)
+	st.Sample = map[string]any{"mode": "secret-factory", "implementation": implName, "size": size, "fault": fired}
+	fo := finish(s, nil, st, true)
+	out.Stats, out.Infra, out.Log = fo.Stats, fo.Infra, fo.Log
+	out.Stats.Faults = st.Faults
+	if f := s.Failure(); f != nil && len(out.Viols) == 0 && (f.Kind == simrt.FailDeadlock || f.Kind == simrt.FailPanic) {
+		out.Infra = nil
+		out.Viols = append(out.Viols, world.Violation{Prop: "C10", Rule: string(f.Kind), Signature: "C10/" + string(f.Kind), Msg: f.Msg})
+	}
+	return out
+}
+
 func runC10(t *simrt.Tape, o Opts) Outcome {
 	mode := t.Choose(4, "mode") // 0-2: world history, 3: cloud KMS plugins
 	if mode == 3 {
 		return runC10KMS(t, o)
+	}
+	if t.Choose(6, "mode.secret-factory") == 1 {
+		return runC10Factory(t, o)
 	}
 	cfg := schedCfg(t, o, false)
 	var w *world.World
